@@ -438,7 +438,12 @@ pub fn run(tier: Tier) -> i32 {
             b |= range(2 * i, 1);
             pre.push(Op::Add(2 * i, 1));
         }
-        explore(&mut rep, &format!("comb-neighbourhood N={} MAX={} depth<=2 all ops", n2, MAX), n2, &all_ops(n2), vec![(a.clone(), b, pre.clone())], Some(2));
+        let small2: Vec<Op> = all_ops(n2).into_iter().filter(|o| match o { Op::Add(_, s) | Op::AddThenRemove(_, s) => *s <= 4 || *s >= n2 - 2, _ => true }).collect();
+        if tier == Tier::Quick {
+            explore(&mut rep, &format!("comb-neighbourhood N={} MAX={} depth<=2 sizes<=4 or >=N-2", n2, MAX), n2, &small2, vec![(a.clone(), b, pre.clone())], Some(2));
+        } else {
+            explore(&mut rep, &format!("comb-neighbourhood N={} MAX={} depth<=2 all ops", n2, MAX), n2, &all_ops(n2), vec![(a.clone(), b, pre.clone())], Some(2));
+        }
         if tier == Tier::Thorough {
             let small: Vec<Op> = all_ops(n2).into_iter().filter(|o| match o { Op::Add(_, s) | Op::AddThenRemove(_, s) => *s <= 3, _ => true }).collect();
             explore(&mut rep, &format!("comb-neighbourhood N={} MAX={} depth<=3 sizes<=3", n2, MAX), n2, &small, vec![(a, b, pre)], Some(3));
